@@ -7,15 +7,17 @@ META = {
         "09.a on the lunar-hour route, for all 60 day pillars x 24 hours: hour branch = floor((h+1)/2) mod 12, hour stem by Five Rats from the day stem, and from 23:00 the day pillar used is the next day's",
         "09.c instant-level view (SixtyCycleHour::from_solar_time): the day pillar it reports is the next day's from 23:00; its hour pillar has branch floor((h+1)/2) mod 12 and the Five-Rats stem of that rolled day pillar; its year pillar turns at the Lichun instant and its month pillar at each Jie instant (given the instant's term)",
         "09.d composition: SixtyCycleHour::get_eight_char and the default provider store exactly the view's year, month, day and hour pillars in that order, the LunarSect2 provider the same with the lunar day's own (unrolled) day pillar; EightChar's four getters return what was stored",
+        "09.e inverse search (EightChar::get_solar_times), what it TRIES: every year of the range (and the year before its first: January belongs to it) that carries the wanted year pillar is visited, incl. stepping by whole 60-year cycles; for every visited year whose candidate day (the term day with the wanted day pillar, 0..59 days after the Jie) lies in a civil year >= start_year, an instant in the hour pillar's double hour is tried (engine B; cycle loop unrolled with the bound proved; infeasible paths pruned at loop back-edges only on both solvers' `unsat`)",
         "09.b LunarHour::new refuses hour > 23, minute > 59, second > 59 before it builds the day",
     ],
     "outside": [                "that the lunar year of an instant is the civil year or the one before and that the instant's term is the right one (taken as given by 09.c)",
-                "the inverse search EightChar::get_solar_times (nested loops over 60-year cycles and term instants)"],
+                "inverse search: that every returned instant has the wanted characters (the code verifies each tried instant by comparing its eight characters: 09.c/09.d), ranges wider than 130 years, double hours that contain a Jie instant"],
     "assumptions": [
         "09.a: the day pillar is an arbitrary pillar (LunarDay::get_sixty_cycle replaced by Obj(p), p in 0..59); its value as a function of the date is 07.c",
         "engine B object model: axioms A-index, A-pillar, A-name, A-format; listed per kernel in the evidence",
         "09.c: instants are numbers ordered per C12 12.c; the lunar hour's pillar satisfies 09.a; the first lunar month's pillar obeys Five Tigers (08.b)",
         "09.d: the four pillars reported by the instant-level view are arbitrary pillars (their values are 09.c / 08 / 07); which provider is installed process-wide is not decided (both shipped providers are)",
+        "09.e: terms are (term-year, index) pairs whose civil year is the term-year, or the next one for index >= 24; the pillar of the term day and the Jie's clock fields are arbitrary; the candidate day's civil year is the term's or the next; every tried instant is taken as kept; case split: candidate day = term day / 1..59 days later; range width <= 57 years (quick) and <= 130 (thorough)",
         "09.b: LunarDay::from_ymd replaced by a stub that fails if reached; fmt_empty",
     ],
 }
@@ -30,4 +32,6 @@ def engine_b(tier, seed, scr):
     eng, err = engine(scr, "09.a/B/hour-pillar", "09.a")
     if eng is None:
         return err
-    return [pillars.k_hour_pillar(eng), pillars.k_day_view(eng, True)] + [pillars.k_compose(eng, w) for w in ("instant", "default", "sect2", "getter-year", "getter-month", "getter-day", "getter-hour")]
+    from mir2smt import inverse
+    inv = [inverse.k_inverse_search(eng, 57, "zero"), inverse.k_inverse_search(eng, 57, "pos")] + ([inverse.k_inverse_search(eng, 130, "pos")] if tier == "thorough" else [])
+    return [pillars.k_hour_pillar(eng), pillars.k_day_view(eng, True)] + inv + [pillars.k_compose(eng, w) for w in ("instant", "default", "sect2", "getter-year", "getter-month", "getter-day", "getter-hour")]
